@@ -14,6 +14,9 @@ from common import show_list, frac_str
 LEVEL = "other"
 LEAN_PROPS = ["FastTicc.Props.C18", "FastTicc.Props.C01"]
 LEAN_HELPERS = ["FastTicc.Proofs.Admm"]
+LEAN_TRANSLATED = {"FastTicc.Props.TrZUpdate": ["soft_threshold_prox", "compute_lambda_sum", "admm_update_z", "locations_compressed",
+                                                "locations_index_slices"],
+                   "FastTicc.Props.TrViterbi": ["assign_point_cluster_labels"]}
 RULE = ("the optimiser entry point, the labelling kernel and both front ends, each called with every equivalent form of the "
         "same value: lambda as python int / float / np.float64 / float32 / float16 / np.int64 / int32 / constant matrix; "
         "beta as int / float / NumPy scalars / constant per-pair vector; eps as int 0 / float / NumPy scalars; complete "
